@@ -27,6 +27,20 @@ ASSUMPTIONS = [
 FUNCS = ["inv", "slogdet", "diag", "trace", "apply_unary", "exp", "pow", "cholesky", "plu"]
 
 
+# (function, kind) pairs the property statement itself names: their structural rule must exist in the live rule table
+REQUIRED = {
+    "inv": ["Kronecker", "BlockDiag", "Diagonal", "Identity", "ScalarMul", "Product"],
+    "slogdet": ["Kronecker", "BlockDiag", "Diagonal", "Identity", "ScalarMul", "Product"],
+    "diag": ["Kronecker", "BlockDiag", "Diagonal", "Identity", "ScalarMul", "KronSum"],
+    "trace": ["Kronecker"],
+    "apply_unary": ["BlockDiag", "Diagonal", "Identity", "ScalarMul"],
+    "exp": ["KronSum"],
+    "pow": ["Kronecker"],
+    "cholesky": ["Kronecker", "BlockDiag", "Diagonal", "Identity", "ScalarMul"],
+    "plu": ["Kronecker", "BlockDiag", "Diagonal", "Identity", "ScalarMul"],
+}
+
+
 def spd(seed, n, tag):
     g = P.rng(seed, "c19", n, tag)
     B = P.ints(g, (n, n), -1, 1)
@@ -168,6 +182,19 @@ def run_case(case, seed):
         warnings.simplefilter("ignore")
         A = operators(seed, tier)[opname]()
         tag, call = entry_points()[epname]
+        kind = type(A).__name__.split("[")[0]
+        missing = []
+        if tag not in (None, "always", "rmatmat"):
+            fn_of_ep = epname.split("(")[0].split("@")[0]
+            for f in tag.replace("diag+trace", "diag|trace").split("|"):
+                named = f in (fn_of_ep, ) or (f == "apply_unary" and fn_of_ep in ("log", "apply_unary")) or (f == "slogdet" and fn_of_ep in ("slogdet", "logdet")) \
+                    or (f == "inv" and fn_of_ep in ("inv", "solve")) or (f == "pow" and fn_of_ep in ("sqrt", "isqrt", "pow2.5"))
+                if named and kind in REQUIRED.get(f, []) and not has_structural_rule(f, A):
+                    missing.append(f)
+        if missing:
+            return {"transitions": 1, "outcome": "rule-missing", "violations": [{
+                "key": f"C19|structural-rule-missing|{kind}|{','.join(missing)}", "what": f"no structural rule registered for {missing} on {kind} "
+                f"(the property names this pair): the generic dense fallback would take over", "detail": {"entry_point": epname, "operator": opname}}]}
         if not applicable(tag, A):
             return {"transitions": 0, "outcome": "no-structural-rule", "violations": [], "notes": {"lattice_points_without_rule": 1}}
         n = A.shape[0]
